@@ -122,7 +122,18 @@ def include_flags():
 
 
 def build(driver, quiet=True):
-    """Returns path of the driver binary; raises RuntimeError on failure."""
+    """Returns path of the driver binary; raises RuntimeError on failure. Builds are serialised by a lock file: checks may
+    be started concurrently and share the object cache."""
+    import fcntl
+    os.makedirs(VERIF + "/build", exist_ok=True)
+    with open(VERIF + "/build/.lock", "w") as lk:
+        fcntl.flock(lk, fcntl.LOCK_EX)
+        binp = _build(driver, quiet)
+        os.utime(binp)   # in use: keep it away from gc_builds of later builds
+        return binp
+
+
+def _build(driver, quiet=True):
     d = DRIVERS[driver]
     v = VARIANTS[d["variant"]]
     inc = include_flags()
